@@ -516,6 +516,9 @@ func (ts *TestScript) setup() string {
 	ts.archive = a
 	for _, f := range a.Files {
 		name := ts.MkAbs(ts.expand(f.Name))
+		if rel, err := filepath.Rel(ts.workdir, name); err != nil || !filepath.IsLocal(rel) {
+			ts.Fatalf("%s: file name refers outside the work directory", f.Name)
+		}
 		ts.scriptFiles[name] = f.Name
 		ts.Check(os.MkdirAll(filepath.Dir(name), 0o777))
 		switch err := writeFile(name, f.Data, 0o666, ts.params.RequireUniqueNames); {
